@@ -842,16 +842,16 @@ Proof.
   cbn [nest_ok]. apply forallb_forall. intros fd Hin. apply (ty_nest_nest e k). now apply (wf_nest k e Hwf sid).
 Qed.
 
-(* ReadFrom of the encoding with unknown fields before any member and after the last one, into any admissible
+(* ReadFrom of the encoding with unknown fields before any member and after the last one, into any
    target, followed by anything that cannot be mistaken for a member *)
 Theorem decode_into_extras e k sid vs prior Js tail :
-  wf_schema k e -> has_type e (TStruct sid) (VStruct vs) -> zlike e (TStruct sid) prior ->
+  wf_schema k e -> has_type e (TStruct sid) (VStruct vs) ->
   junks_ok None (fields_of e sid) Js ->
   (forall fd, In fd (fields_of e sid) -> follows (ftag fd) tail) ->
   (need_list vs + k + 3 <= 2 * length (encx_fields e vs (fields_of e sid) Js ++ tail) + 64)%nat ->
   decode_into e sid prior (encx_fields e vs (fields_of e sid) Js ++ tail) = DOk (norm_struct e sid (VStruct vs)) tail.
 Proof.
-  intros Hwf Hty Hp HJ Htail Hfuel. unfold decode_into, norm_struct. rewrite norm_str.
+  intros Hwf Hty HJ Htail Hfuel. unfold decode_into, norm_struct. rewrite norm_str.
   set (bs := encx_fields e vs (fields_of e sid) Js ++ tail) in *.
   replace (4 * length bs + 64)%nat with (S (4 * length bs + 63)) by lia.
   destruct (struct_priors1 e k (4 * length bs + 63) sid prior Hwf ltac:(lia)) as (ps & -> & Hps).
@@ -866,12 +866,12 @@ Proof.
 Qed.
 
 Theorem roundtrip_into e k sid vs prior rest :
-  wf_schema k e -> has_type e (TStruct sid) (VStruct vs) -> zlike e (TStruct sid) prior ->
+  wf_schema k e -> has_type e (TStruct sid) (VStruct vs) ->
   (forall fd, In fd (fields_of e sid) -> follows (ftag fd) rest) ->
   (need_list vs + k + 3 <= 2 * length (encode e sid (VStruct vs) ++ rest) + 64)%nat ->
   decode_into e sid prior (encode e sid (VStruct vs) ++ rest) = DOk (norm_struct e sid (VStruct vs)) rest.
 Proof.
-  intros Hwf Hty Hp Htail Hfuel.
+  intros Hwf Hty Htail Hfuel.
   assert (Hl : length (fields_of e sid) = length vs).
   { inversion Hty as [| | | | |? ? Hvs]; subst; [discriminate|]. now apply Forall2_len in Hvs. }
   rewrite encode_fields in *. rewrite <- (encx_nil e vs (fields_of e sid) Hl) in *.
@@ -889,7 +889,6 @@ Theorem roundtrip_struct e k sid vs :
 Proof.
   intros Hwf Hk Hty Hfuel. unfold decode.
   rewrite <- (app_nil_r (encode e sid (VStruct vs))). apply (roundtrip_into e k); try assumption.
-  - now apply (zero_struct_zlike e k).
   - intros; apply follows_nil.
   - now rewrite app_nil_r.
 Qed.
@@ -1089,7 +1088,6 @@ Theorem extras_ignored e k n sid vs Js Jl :
 Proof.
   intros Hwf Hk Hfin Hn Hty HJ HJl. split; [|now apply (roundtrip_struct_static e k n)].
   unfold decode. apply (decode_into_extras e k); try assumption.
-  - now apply (zero_struct_zlike e k).
   - intros fd Hin. now apply (follows_trailing (fields_of e sid)).
   - pose proof (need_top e n sid vs Hfin Hty) as H1. rewrite encode_fields in H1.
     inversion Hty as [| | | | |? ? Hvs]; subst; [discriminate|].
